@@ -1,16 +1,20 @@
 #!/bin/bash
-# usage: seed_matrix.sh [seed names...] : applies each kept seeded change to /repo in turn, runs the checks recorded for it
-# (seeded/<id>/checks.txt, default: the property's own check), undoes it; prints one line per (seed, check)
+# usage: seed_matrix.sh [seed names...] : runs every kept seeded change against the checks recorded for it
+# (seeded/<id>/checks.txt, default: the property's own check) in ONE scratch worktree of /repo (never /repo itself);
+# prints one line per (seed, check). Evidence of these runs goes to a scratch directory.
 cd /verif
 names=${@:-$(ls seeded)}
+W=/tmp/wt-matrix
+git -C /repo worktree remove --force $W 2>/dev/null
+git -C /repo worktree add --detach -f $W HEAD >/dev/null 2>&1 || { echo "cannot create worktree"; exit 3; }
 for n in $names; do
   P=/verif/seeded/$n/patch.diff
   ids=$(cat /verif/seeded/$n/checks.txt 2>/dev/null || echo ${n:0:3})
-  (cd /repo && git apply "$P") || { echo "$n: patch does not apply"; continue; }
+  (cd $W && git checkout -q -- . && git apply "$P") || { echo "$n: patch does not apply"; continue; }
   for id in $ids; do
-    timeout 1800 ./check $id > /tmp/matrix-$n-$id.log 2>&1; rc=$?
-    echo "$n $id exit=$rc $(grep -E '^C[0-9]+ tier' /tmp/matrix-$n-$id.log | cut -c1-110) :: $(grep -E '^VIOLATION' /tmp/matrix-$n-$id.log | head -1 | cut -c1-90)"
+    VERIF_REPO=$W timeout 2400 ./check $id > /tmp/matrix-$n-$id.log 2>&1; rc=$?
+    echo "$n $id exit=$rc $(grep -E '^C[0-9]+ tier' /tmp/matrix-$n-$id.log | cut -c1-100) :: $(grep -E '^(VIOLATION|INCONCLUSIVE)' /tmp/matrix-$n-$id.log | head -1 | cut -c1-110)"
   done
-  (cd /repo && git checkout -- . )
 done
-(cd /repo && git status --short | head -3)
+git -C /repo worktree remove --force $W
+rm -rf /verif/.build/replay-alt-* /verif/.build/replay-target-alt-* /tmp/verif-evidence-alt
